@@ -151,17 +151,18 @@ theorem step_client (s : Sys F) (ev : Ev) :
   | failBind c => exact ⟨rfl, rfl⟩
   | syncTimeout => exact ⟨rfl, rfl⟩
   | stamp idx weak ld ccb cct => exact ⟨rfl, rfl⟩
+  | reload rnow raddrs routs => exact ⟨rfl, rfl⟩
 
 /-- **The relay log of a run.**  With distinct conn ids, the concatenation of `Out.client` over any run
 is `relayLog` of the event list. -/
-theorem run_client_log (s : Sys F) (hnd : (ids s.links).Nodup) (evs : List Ev) :
+theorem run_client_log (s : Sys F) (hnd : (ids s.links).Nodup) (evs : List Ev) (hnr : NoReload evs) :
     clientLog (run s evs).2 = relayLog (ids s.links) s.clientKnown evs := by
   induction evs generalizing s with
   | nil => rfl
   | cons ev evs ih =>
     obtain ⟨h1, h2⟩ := step_client s ev
-    have hids := step_ids s ev hnd
-    have := ih (step s ev).1 (by rw [hids]; exact hnd)
+    have hids := step_ids s ev hnd hnr.head
+    have := ih (step s ev).1 (by rw [hids]; exact hnd) hnr.tail
     simp only [run, clientLog, List.flatMap_cons] at this ⊢
     rw [this, hids, h1, h2]
     cases ev <;> rfl
@@ -220,6 +221,7 @@ theorem relayLog_true (known : List Nat) (evs : List Ev) :
     | failBind c => simpa [relayLog, relayables, ckAfter] using ih
     | syncTimeout => simpa [relayLog, relayables, ckAfter] using ih
     | stamp idx weak ld ccb cct => simpa [relayLog, relayables, ckAfter] using ih
+    | reload rnow raddrs routs => simpa [relayLog, relayables, ckAfter] using ih
 
 /-- No non-empty client datagram among the events. -/
 def noClient : List Ev → Bool
@@ -245,6 +247,7 @@ theorem relayLog_false_noClient (known : List Nat) (evs : List Ev) (h : noClient
     | failBind c => exact ih h
     | syncTimeout => exact ih h
     | stamp idx weak ld ccb cct => exact ih h
+    | reload rnow raddrs routs => exact ih h
 
 theorem relayLog_false_split (known : List Nat) (pre : List Ev) (now : Nat) (pkt : Bytes) (post : List Ev)
     (h : noClient pre = true) (hne : pkt.isEmpty = false) :
@@ -265,6 +268,7 @@ theorem relayLog_false_split (known : List Nat) (pre : List Ev) (now : Nat) (pkt
     | failBind c => exact ih h
     | syncTimeout => exact ih h
     | stamp idx weak ld ccb cct => exact ih h
+    | reload rnow raddrs routs => exact ih h
 
 theorem sublist_flatMap_relayCopies (l : List Bytes) : l.Sublist (l.flatMap relayCopies) := by
   induction l with
